@@ -76,7 +76,21 @@ def verify_tree():
         if not hard and not comp:
             break
         forced |= hard | comp
-    return {'build': b, 'failures': all_fail, 'tool': tool + [t for t in tool_hist if t not in tool], 'res': res, 'forced': sorted(forced)}
+    # A proof that is found under ANY solver seed is a proof: re-try every failing function in isolation with
+    # other seeds and a larger resource limit before its failures are believed (guards against solver
+    # instability, which would otherwise surface as a false alarm on code that was not even touched).
+    retried = {}
+    by_fn = {}
+    for f in all_fail:
+        if f['fn'] and not vrun.is_module_abort(f['msg']):
+            by_fn.setdefault(f['fn'], []).append(f)
+    if 0 < len(by_fn) <= 12:
+        for fn in sorted(by_fn):
+            ok_seed = vrun.retry_function(b['text'], fn)
+            retried[fn] = ok_seed
+            if ok_seed is not None:
+                all_fail = [f for f in all_fail if f['fn'] != fn]
+    return {'build': b, 'failures': all_fail, 'tool': tool + [t for t in tool_hist if t not in tool], 'res': res, 'forced': sorted(forced), 'retried': retried}
 
 
 def fn_results(res):
@@ -206,6 +220,7 @@ def main():
             'known_findings_hit': [k for k, _ in known_hits],
             'verus_run_cached': res.get('cached', False), 'verus_wall_s': res.get('wall_s'),
             'forced_assumed_after_module_abort': V['forced'],
+            'failing_functions_retried_with_other_seeds': {k_: ('discharged with seed %s' % v_ if v_ is not None else 'still failing') for k_, v_ in V.get('retried', {}).items()},
         },
         'assumptions': props.assumptions(b, pid),
         'wall_s': round(time.time() - t0, 2),
